@@ -34,4 +34,66 @@ def relevant (key : Tok) (hist : List Entry) : List Chunk :=
 /-- the match function is consistent with `simple`: `AlwaysTrue` and version-less atoms of the package's key match -/
 def MatchOk (m : Nat → Bool) (cs : List Chunk) : Prop := ∀ c ∈ cs, c.simple = true → m c.kid = true
 
+/-! ### token lines
+
+A line of tokens means: apply them one after the other — `flag` adds, `-flag` removes, `-*` clears everything, `-PREFIX_*`
+clears the flags with that prefix.  That is the chunk semantics above with every token an entry of its own. -/
+
+/-- one token as an entry -/
+def tokChunk (t : Tok) : Chunk :=
+  if t.head? = some '-' then ⟨0, true, [t.tail], []⟩ else ⟨0, true, [], [t]⟩
+
+/-- the tokens applied left to right to the initial set `s` -/
+def ltr (toks : List Tok) (s : TSet) : TSet := render (fun _ => true) (toks.map tokChunk) s
+
+/-- what the last token speaking about `x` says -/
+def lastTok (toks : List Tok) (x : Tok) : Option Bool := lastV (fun _ => true) (toks.map tokChunk) x
+
+/-- **USE_EXPAND sections**: every token rewritten by the section it stands in (`cur`), section headers dropped;
+tokens before the first section are unchanged.  `FOO: a -b -*` ↦ `foo_a -foo_b -foo_*`. -/
+def rewriteFrom : Option Tok → List Tok → List Tok
+  | _, [] => []
+  | cur, t :: ts =>
+    if isSection t then rewriteFrom (some (sectionName t)) ts
+    else (match cur with | none => t | some ue => expandTok ue t) :: rewriteFrom cur ts
+
+def rewrite (toks : List Tok) : List Tok := rewriteFrom none toks
+
+/-- the rest of the part (plain head or one `NAME:` section) a token stands in -/
+def restOfPart (ts : List Tok) : List Tok := ts.takeWhile fun t => !isSection t
+
+/-- what the splitter hands on: the rewritten line without the tokens a later `-*` *of the same part* overrides anyway
+(in the plain head everything before the last `-*`; in a section the values before its last `-*`, the `-name_*` themselves
+stay).  Defined by looking ahead, where the code keeps a start index / a buffer. -/
+def splitSpecFrom : Option Tok → List Tok → List Tok
+  | _, [] => []
+  | cur, t :: ts =>
+    if isSection t then splitSpecFrom (some (sectionName t)) ts
+    else match cur with
+      | none => if (restOfPart ts).contains dashStar then splitSpecFrom none ts else t :: splitSpecFrom none ts
+      | some ue =>
+        if t != dashStar && (restOfPart ts).contains dashStar then splitSpecFrom cur ts
+        else expandTok ue t :: splitSpecFrom cur ts
+
+def splitSpec (toks : List Tok) : List Tok := splitSpecFrom none toks
+
+/-- the long-form tokens the splitter validates (everything but the clears) -/
+def checkedFrom : Option Tok → List Tok → List Tok
+  | _, [] => []
+  | cur, t :: ts =>
+    if isSection t then checkedFrom (some (sectionName t)) ts
+    else if t = dashStar then checkedFrom cur ts
+    else (match cur with | none => t | some ue => expandTok ue t) :: checkedFrom cur ts
+
+/-- no section header starts with `-` (`-FOO: a` would be read as the *negative* `-foo_a`) -/
+def plainNames (toks : List Tok) : Bool :=
+  toks.all fun t => !isSection t || (sectionName t).head? != some '-'
+
+/-- a line stored as *one* chunk (negatives, positives) forgets the order of its tokens.  `orderFree`: no token
+switches a flag on that a later token of the line switches off again — then the order does not matter. -/
+def orderFree : List Tok → Bool
+  | [] => true
+  | t :: ts =>
+    (t.head? == some '-' || !(ts.any fun u => u.head? == some '-' && covers [u.tail] t)) && orderFree ts
+
 end Pkgcore.C11.Spec
